@@ -33,6 +33,8 @@ ERRNOS = {
     "EADDRNOTAVAIL": _errno.EADDRNOTAVAIL,
     "EAFNOSUPPORT": _errno.EAFNOSUPPORT,
     "EMFILE": _errno.EMFILE,
+    "EBADF": _errno.EBADF,
+    "ENOTSOCK": _errno.ENOTSOCK,
 }
 FAMILIES = {4: _real_socket.AF_INET, 6: _real_socket.AF_INET6}
 REMOTE_HOST = "remote.test"
@@ -110,6 +112,10 @@ class _FakeSocket:
         if self.closed:
             self._rec.misuse.append(f"setblocking() on closed {self!r}")
             raise OSError(_errno.EBADF, os.strerror(_errno.EBADF))
+        fam = {v: k for k, v in FAMILIES.items()}.get(self.family)
+        fail = self._rec.plan.get("setblock_fail", {}).get(str(fam))
+        if fail:
+            raise _oserror(fail)
         self.blocking = bool(flag)
 
     def close(self) -> None:
@@ -357,6 +363,10 @@ def _model_expect_success(plan: dict) -> bool:
     for a in addrs:
         if plan.get("sock_fail", {}).get(str(a["family"])):
             continue
+        if plan.get("setblock_fail", {}).get(str(a["family"])) and not (
+            plan.get("local") and not any(la["family"] == a["family"] and la["bind"] == "ok" for la in local)
+        ):
+            continue  # the socket exists (and is bound) but setblocking(False) fails: the attempt ends before connect
         if plan.get("local"):
             if not any(la["family"] == a["family"] and la["bind"] == "ok" for la in local):
                 continue
@@ -383,6 +393,8 @@ def run_case(case: dict) -> Outcome:
             classes.append("bind-failure")
     if plan.get("sock_fail"):
         classes.append("socket-create-failure")
+    if plan.get("setblock_fail"):
+        classes.append("setblocking-failure")
     if len({a["family"] for a in plan["addrs"]}) == 2:
         classes.append("mixed-families")
 
@@ -488,6 +500,9 @@ def st_case(draw: st.DrawFn, tier: str) -> dict:
     if draw(st.integers(0, 14)) == 0:
         fam = draw(st.sampled_from([4, 6]))
         case["sock_fail"] = {str(fam): draw(st.sampled_from(["EAFNOSUPPORT", "EMFILE"]))}
+    if draw(st.integers(0, 11)) == 0:
+        fam = draw(st.sampled_from([4, 6]))
+        case["setblock_fail"] = {str(fam): draw(st.sampled_from(["EBADF", "ENOTSOCK"]))}
     if kind == "datagram":
         case["dgram_family"] = draw(st.sampled_from([0, 0, 0, 4, 6]))
     case["resolve_yields"] = draw(st.sampled_from([0, 0, 1, 2]))
